@@ -380,7 +380,7 @@ pub(crate) fn unreached_first_after_model(_c: &compact_calendar::CompactCalendar
 
 //@H props=C08,C17,C04 tier=quick kind=bounded cap=1200 mem=light bound="expressions of 1 rule (any operator/kind, empty day selector; the rule's contribution is an arbitrary contract model)" domain="every date chrono can represent outside 1900-01-01..9999-12-31"
 #[cfg_attr(kani, kani::proof)]
-#[cfg_attr(kani, kani::unwind(3))]
+#[cfg_attr(kani, kani::unwind(2))]
 #[cfg_attr(kani, kani::stub(rule_sequence_schedule_at, rule_schedule_lean_model))]
 #[cfg_attr(kani, kani::stub(Schedule::addition, addition_emptiness_model))]
 #[cfg_attr(kani, kani::stub(crate::filter::date_filter::valid_ymd_before, unreached_ymd_model))]
@@ -425,11 +425,11 @@ pub(crate) fn comb_rule_model<L: Localize>(r: &RuleSequence, date: NaiveDate, _c
             if date.year() != y as i32 {
                 return None;
             }
-            return Some(if whole_day {
-                Schedule { inner: vec![TimeRange::new(ExtendedTime::MIDNIGHT_00..ExtendedTime::MIDNIGHT_24, r.kind, UniqueSortedVec::new())] }
-            } else {
-                Schedule::default()
-            });
+            let mut inner = Vec::new();
+            if whole_day {
+                inner.push(TimeRange::new(ExtendedTime::MIDNIGHT_00..ExtendedTime::MIDNIGHT_24, r.kind, UniqueSortedVec::new()));
+            }
+            return Some(Schedule { inner });
         }
         i += 1;
     }
@@ -539,7 +539,7 @@ fn comb_body<const N: usize>() {
 
 //@H props=C01,C17,C04 tier=thorough kind=bounded cap=3600 mem=medium bound="expressions of 2 rules (all operators x kinds; one-year day selectors; whole-day or empty contributions, no spill-over from the previous day); callees replaced by contract models" domain="all dates 1900..9999, all rule years, query minute 00:00..23:59"
 #[cfg_attr(kani, kani::proof)]
-#[cfg_attr(kani, kani::unwind(4))]
+#[cfg_attr(kani, kani::unwind(3))]
 #[cfg_attr(kani, kani::stub(rule_sequence_schedule_at, comb_rule_model))]
 #[cfg_attr(kani, kani::stub(Schedule::addition, addition_whole_day_model))]
 #[cfg_attr(kani, kani::stub(crate::filter::date_filter::valid_ymd_before, unreached_ymd_model))]
@@ -556,7 +556,7 @@ fn rule_combination_2() {
 
 //@H props=C01,C17,C04 tier=thorough kind=bounded cap=3600 mem=medium bound="expressions of 3 rules (all operators x kinds; one-year day selectors; whole-day or empty contributions, no spill-over from the previous day); callees replaced by contract models" domain="all dates 1900..9999, all rule years, query minute 00:00..23:59"
 #[cfg_attr(kani, kani::proof)]
-#[cfg_attr(kani, kani::unwind(5))]
+#[cfg_attr(kani, kani::unwind(4))]
 #[cfg_attr(kani, kani::stub(rule_sequence_schedule_at, comb_rule_model))]
 #[cfg_attr(kani, kani::stub(Schedule::addition, addition_whole_day_model))]
 #[cfg_attr(kani, kani::stub(crate::filter::date_filter::valid_ymd_before, unreached_ymd_model))]
@@ -569,4 +569,133 @@ fn rule_combination_2() {
 #[cfg_attr(verif_replay, test)]
 fn rule_combination_3() {
     comb_body::<3>()
+}
+
+// ---- composition of the per-rule hints in `OpeningHours::next_change_hint` (opening_hours.rs:110-133) -------------------
+//
+// Statement (C02): "No state change present in the daily schedules is skipped or displaced, however many days lie between
+// changes."  For the composition this means: a hint that jumps over days is allowed only if, for every rule, the rule
+// applies on none of the days d, skipped days, or applies on all of them with a time selector that is the same whole day
+// every day - otherwise the skipped days could differ from d.  Rules carry one-year day selectors (real `YearRange`
+// filter and hint), so whether rule i applies on a day is `year == y_i`; the skipped day d' is symbolic.
+// Not expressed here: the spill-over of a span passing midnight from the day before d (the known `Jul 22 04:00-48:00`
+// defect lives there; DESIGN.md section 0c).
+
+/// N rules with one-year day selectors and one fixed span each (whole day or part of the day)
+fn hint_rules<const N: usize>() -> (OpeningHours, [(u16, bool); N]) {
+    use opening_hours_syntax::rules::time::{TimeSelector, TimeSpan};
+    let mut rules = Vec::new();
+    let mut tab = [(0u16, false); N];
+    let mut i = 0;
+    while i < N {
+        let y = nd::u16();
+        nd::assume(1900 <= y && y <= 9999);
+        let full_day = nd::bool();
+        let span = if full_day {
+            TimeSpan::fixed_range(ExtendedTime::MIDNIGHT_00, ExtendedTime::MIDNIGHT_24)
+        } else {
+            TimeSpan::fixed_range(any_ext_time(24 * 60), any_ext_time(48 * 60))
+        };
+        nd::assume(full_day || span != TimeSpan::fixed_range(ExtendedTime::MIDNIGHT_00, ExtendedTime::MIDNIGHT_24));
+        tab[i] = (y, full_day);
+        rules.push(RuleSequence {
+            day_selector: ds::DaySelector { year: vec![ds::YearRange { range: ds::Year(y)..=ds::Year(y), step: 1 }], ..Default::default() },
+            time_selector: TimeSelector { time: vec![span] },
+            kind: any_kind(),
+            operator: any_operator(),
+            comments: Default::default(),
+        });
+        i += 1;
+    }
+    (OpeningHours { expr: Arc::new(OpeningHoursExpression { rules }), ctx: Context::default() }, tab)
+}
+
+fn hint_before_1900_body<const N: usize>() {
+    let (oh, _) = hint_rules::<N>();
+    let d = any_chrono_date();
+    nd::assume(d.year() >= 1 && d < date_start());
+    // "from an instant before 1900 it returns the first instant from 1900-01-01T00:00 on at which the expression is not
+    // closed": the day 1900-01-01 itself must be looked at, whatever the rules are
+    vpost!("C08.next_change_hint.before_1900_jumps_to_1900_01_01", oh.next_change_hint(d) == Some(date_start()));
+    vcover!("hint_before_1900.reachable", true);
+}
+
+fn hint_rules_body<const N: usize>() {
+    let d = crate::filter::date_filter::verif_date_filter::any_date();
+    let between = crate::filter::date_filter::verif_date_filter::any_date();
+    let (oh, tab) = hint_rules::<N>();
+    let hint = oh.next_change_hint(d);
+    if let Some(h) = hint {
+        vpost!("C02.next_change_hint.is_after_the_date", h > d);
+        vpost!("C08.next_change_hint.never_beyond_10000_01_01", h <= date_end());
+        // a trivially constant expression may skip everything: that `is_constant()` implies one single full-day kind on
+        // every day is the obligation of the `is_constant_N` harnesses (callee contract)
+        let jumps = d.succ_opt().map_or(false, |next| h > next) && !oh.expr.is_constant();
+        let mut i = 0;
+        while i < N {
+            let (y, full_day) = tab[i];
+            let applies_d = d.year() == y as i32;
+            if jumps {
+                vpost!(
+                    "C02.next_change_hint.days_are_skipped_only_if_no_rule_with_part_day_spans_applies",
+                    !applies_d || full_day
+                );
+                if d < between && between < h {
+                    vpost!(
+                        "C02.next_change_hint.every_rule_applies_on_all_skipped_days_or_on_none",
+                        (between.year() == y as i32) == applies_d
+                    );
+                }
+            }
+            i += 1;
+        }
+    }
+    vcover!("hint_rules.jump", hint.map_or(false, |h| d.succ_opt().map_or(false, |n| h > n)));
+    vcover!("hint_rules.next_day_because_of_part_day_span", hint == d.succ_opt() && d.ordinal() < 300);
+    vcover!("hint_rules.jump_to_the_year_a_rule_starts", hint.map_or(false, |h| h.year() == tab[0].0 as i32 && h.ordinal() == 1 && d.year() < h.year()));
+}
+
+//@H unwindset="Iter<'_, std::option::Option<chrono::NaiveDate>> as std::iter::Iterator>::fold=5" props=C02,C08,C04 tier=quick kind=bounded cap=1800 mem=medium bound="expressions of 1 rule (all operators x kinds; one-year day selector; whole-day or part-day fixed span)" domain="all dates 1900..9999 x all skipped dates, all rule years"
+#[cfg_attr(kani, kani::proof)]
+#[cfg_attr(kani, kani::unwind(2))]
+#[cfg_attr(kani, kani::stub(crate::filter::date_filter::valid_ymd_before, unreached_ymd_model))]
+#[cfg_attr(kani, kani::stub(crate::filter::date_filter::valid_ymd_after, unreached_ymd_model))]
+#[cfg_attr(kani, kani::stub(crate::utils::dates::easter, unreached_easter_model))]
+#[cfg_attr(kani, kani::stub(crate::utils::dates::count_days_in_month, unreached_days_in_month_model))]
+#[cfg_attr(kani, kani::stub(opening_hours_syntax::rules::day::DateOffset::apply, unreached_offset_model))]
+#[cfg_attr(kani, kani::stub(compact_calendar::CompactCalendar::contains, unreached_contains_model))]
+#[cfg_attr(kani, kani::stub(compact_calendar::CompactCalendar::first_after, unreached_first_after_model))]
+#[cfg_attr(verif_replay, test)]
+fn next_change_hint_with_1_rule() {
+    hint_rules_body::<1>()
+}
+
+//@H unwindset="Iter<'_, std::option::Option<chrono::NaiveDate>> as std::iter::Iterator>::fold=5" props=C08,C04 tier=quick kind=bounded cap=1800 mem=medium bound="expressions of 1 rule (all operators x kinds; one-year day selector; whole-day or part-day fixed span)" domain="every date from year 1 to 1899-12-31, all rule years"
+#[cfg_attr(kani, kani::proof)]
+#[cfg_attr(kani, kani::unwind(2))]
+#[cfg_attr(kani, kani::stub(crate::filter::date_filter::valid_ymd_before, unreached_ymd_model))]
+#[cfg_attr(kani, kani::stub(crate::filter::date_filter::valid_ymd_after, unreached_ymd_model))]
+#[cfg_attr(kani, kani::stub(crate::utils::dates::easter, unreached_easter_model))]
+#[cfg_attr(kani, kani::stub(crate::utils::dates::count_days_in_month, unreached_days_in_month_model))]
+#[cfg_attr(kani, kani::stub(opening_hours_syntax::rules::day::DateOffset::apply, unreached_offset_model))]
+#[cfg_attr(kani, kani::stub(compact_calendar::CompactCalendar::contains, unreached_contains_model))]
+#[cfg_attr(kani, kani::stub(compact_calendar::CompactCalendar::first_after, unreached_first_after_model))]
+#[cfg_attr(verif_replay, test)]
+fn next_change_hint_before_1900_with_1_rule() {
+    hint_before_1900_body::<1>()
+}
+
+//@H unwindset="Iter<'_, std::option::Option<chrono::NaiveDate>> as std::iter::Iterator>::fold=5" props=C02,C08,C04 tier=thorough kind=bounded cap=3600 mem=medium bound="expressions of 2 rules (all operators x kinds; one-year day selectors; whole-day or part-day fixed spans)" domain="all dates 1900..9999 x all skipped dates, all rule years"
+#[cfg_attr(kani, kani::proof)]
+#[cfg_attr(kani, kani::unwind(3))]
+#[cfg_attr(kani, kani::stub(crate::filter::date_filter::valid_ymd_before, unreached_ymd_model))]
+#[cfg_attr(kani, kani::stub(crate::filter::date_filter::valid_ymd_after, unreached_ymd_model))]
+#[cfg_attr(kani, kani::stub(crate::utils::dates::easter, unreached_easter_model))]
+#[cfg_attr(kani, kani::stub(crate::utils::dates::count_days_in_month, unreached_days_in_month_model))]
+#[cfg_attr(kani, kani::stub(opening_hours_syntax::rules::day::DateOffset::apply, unreached_offset_model))]
+#[cfg_attr(kani, kani::stub(compact_calendar::CompactCalendar::contains, unreached_contains_model))]
+#[cfg_attr(kani, kani::stub(compact_calendar::CompactCalendar::first_after, unreached_first_after_model))]
+#[cfg_attr(verif_replay, test)]
+fn next_change_hint_with_2_rules() {
+    hint_rules_body::<2>()
 }
